@@ -579,7 +579,15 @@ def run_case(ctx, case, count=True):
                 ctx.count("syntax_rejected")
                 ctx.count("syntax_rejected:" + case["access"] + "/" + case["consume"])
             return False
-        if count:
+        except Exception as e:
+            # constant folding evaluates parts of the template while compiling: an
+            # exception raised there (SecurityError from an unsafe undefined that is
+            # concatenated / compared at compile time) is the outcome of the case
+            bad, tmpl = [], None
+            out, exc = None, (type(e).__name__, str(e)[:160])
+            if count:
+                ctx.count("compile_time_outcome:" + type(e).__name__)
+        if count and tmpl is not None:
             ctx.count("structural_checks")
         if bad and forbidden:
             # (public names of real objects, e.g. 'format' or 'join', legitimately
@@ -588,8 +596,9 @@ def run_case(ctx, case, count=True):
                           f"generated code for {source!r} contains {bad[:3]} on template-chosen "
                           f"name(s) {sorted(names)}", full)
         try:
-            out = tmpl.render(**data)
-            exc = None
+            if tmpl is not None:
+                out = tmpl.render(**data)
+                exc = None
         except SecurityError as e:
             out, exc = None, ("SecurityError", str(e)[:160])
         except Exception as e:
